@@ -27,6 +27,8 @@ func runC04(c *Ctx) {
 	c.Rule("R04f", "dependsOn: the tables of the two changes are compared by pointer only when both changes are ModifyTable (AddTable/DropTable tables may be copies made by detachReferences; identity there is name + schema)", 1)
 	c.Rule("R04g", ruleTextSortSelf, 5)
 	checkSortSelf(c, "R04g")
+	c.Rule("R04l", ruleTextExactIdentity, 2)
+	checkExactIdentity(c, "R04l")
 	c.Rule("R04j", ruleTextOwnDroppedColumns, 3)
 	checkOwnDroppedColumns(c, "R04j")
 	c.Rule("R04k", ruleTextStableCoarseSort, 1)
